@@ -121,6 +121,7 @@ class Chip:
         self.ce_trace = []  # (now, level)
         self.rpd = 0
         self.carrier = False
+        self.last_status = 0x0E
         self.role_change_ce_high = []  # times at which PRIM_RX was toggled while CE was high
 
     # ------------------------------------------------------------------ derived values
@@ -196,6 +197,7 @@ class Chip:
         """one complete SPI transaction (CSN low ... CSN high); returns the MISO bytes"""
         self.sim.spi_tick()
         st = self.status()  # latched at CSN-low, i.e. before the command acts
+        self.last_status = st
         cmd = out[0]
         data = bytes(out[1:])
         if self.trace_on:
